@@ -38,3 +38,8 @@ check("C11", "fault_enumeration",
       "All 96 cells {8 points of the exchange} x {CLOSE_CHANNEL, out-of-order packet, unframeable bytes, FIN/RST of websocket, of legacy IN, of legacy OUT} x transport are executed R times with pacing and delay points; after every ending the host connection and all client-facing connections must reach EOF/RST, and at quiescence the registry events balance, no goroutine remains in the gateway's protocol/transport packages and the gauges are back at the baseline.",
       "bounded progress restatement of 'within a bounded time': 15 s watchdog (a correct release takes milliseconds, a leak is permanent because the lab's backends never hang up first); goroutine attribution by package name in the dump",
       "DESIGN.md 4 C11")
+check("C14", "exploration",
+      "runtime monitoring: oracle by construction over NTLM message histories (shadow state per session), in-process verifier and the real rdpgw-auth process over gRPC, messages from the lab's own NTLMv2 implementation",
+      "Tens of thousands of PRNG histories of negotiate / authenticate / garbage messages over 1-4 session ids, 4 user databases, with wrong passwords, unknown and empty-password users, case variants, responses for another session's or an older challenge, replays, bit flips in NTProofStr and blob, LM-only and NTLMv1 responses and name swaps; Authenticated is allowed only where the driver built the message from the configured password over the session's latest challenge, and required directly after a negotiate.",
+      "trusted: the lab's NTLMv2 implementation (cross-checked against the verifier by a unit test), PAM stand-in irrelevant here; sessions of one history are sequential",
+      "DESIGN.md 4 C14")
